@@ -302,8 +302,10 @@ impl<Front: SocketHandler> ConnectionH1<Front> {
         // frontend has written it and cleared the buffer, the rest is still in
         // the storage and the socket has nothing new to say: parse what is
         // already here instead of waiting for bytes that will not come.
+        // (the backend's FIN may have come in that same read: the socket then
+        // answers Closed, and what is buffered is all there will ever be)
         let leftover_after_interim = size == 0
-            && status == SocketResult::WouldBlock
+            && matches!(status, SocketResult::WouldBlock | SocketResult::Closed)
             && self.position.is_client()
             && kawa.is_initial()
             && !kawa.storage.unparsed_data().is_empty();
